@@ -596,9 +596,9 @@ Qed.
 Lemma chain_ideal c topo : forall hs k n, chain topo k n hs -> ideal_hops c hs = true ->
   chain (fun _ => cfg_topo c) k n hs.
 Proof.
-  induction hs as [| h hs IH]; intros k n C I; [exact I |].
+  induction hs as [| h hs IH]; intros k n C Hi; [exact I |].
   cbn [chain] in *. destruct C as (C1 & _ & C3).
-  cbn [ideal_hops forallb] in I. apply andb_prop in I. destruct I as [I1 I2].
+  cbn [ideal_hops forallb] in Hi. apply andb_prop in Hi. destruct Hi as [I1 I2].
   apply onode_eqb_eq in I1.
   split; [exact C1 |]. split; [exact I1 |]. exact (IH _ _ C3 I2).
 Qed.
@@ -861,3 +861,44 @@ Lemma cfg_accepts_own c h dst : hc_wild (cfg_hc c h) = false ->
 Proof.
   unfold cfg_accepts, cfg_host_ip. intros -> H. cbn in H. apply N.eqb_eq in H. exact H.
 Qed.
+
+(* ------------------------------------------------------------------ where the code leaves the
+   property: ARP handing a frame to a station that does not own the next hop *)
+(* star  H0,H1 -(net0)- R0 -(net1)- H2 ; R0's route for 10.0.1.0/24 names slot 0 (net0) instead
+   of slot 1; H1's application listens on 0.0.0.0 *)
+Definition ex_bad : cfg :=
+  mkCfg [65535; 65535]
+    [ mkRcfg [ (mkNet 167772160 m24, (None, 0)); (mkNet 167772416 m24, (None, 0)) ]
+             [167772161; 167772417] [0; 1] ]
+    [ mkHcfg 0 167772170 m24 167772161 false; mkHcfg 0 167772171 m24 167772161 true;
+      mkHcfg 1 167772428 m24 167772417 false ].
+Definition ex_bad_pkt (ttl : N) : pkt :=
+  mkPkt ttl 167772170 167772428 0 38 0 0 0 17 (repeat 0 18).
+
+(* with ARP as it should be the datagram dies at R0 (nobody on net0 owns 10.0.1.12); if ARP
+   returns the MAC it learnt for 10.0.1.12 on net1 - which on net0 is H1's - the datagram is
+   delivered to the application of H1, a host that does not own the destination address *)
+Lemma refuted_only_destination :
+  snd (cfg_trajectory ex_bad (NRouter 0) (ex_bad_pkt 30)) = ENoArp 0 /\
+  exists topo l h,
+    trajectory (cfg_router ex_bad) (cfg_accepts ex_bad) topo (NRouter 0) (ex_bad_pkt 30)
+      = (l, EDelivered h) /\
+    cfg_host_ip ex_bad h <> p_dst (ex_bad_pkt 30).
+Proof.
+  split; [vm_compute; reflexivity |].
+  exists (fun _ _ _ _ => Some (NHost 1)), [mkHop 0 0 167772428 (NHost 1) (ex_bad_pkt 29)], 1.
+  split; [vm_compute; reflexivity | vm_compute; discriminate].
+Qed.
+
+(* the validator follows the OBSERVED receivers, so it accepts such a trace as what the code
+   does, and [all_ideal] reports that ARP misbehaved in it *)
+Definition ex_bad_dgram : dgram := mkDgram 0 167772428 30 (repeat 0 10).
+Definition ex_bad_trace : list (N * frame) :=
+  [ (0, mkFrame 0 (NHost 0) (Some (NRouter 0)) (ex_bad_pkt 30));
+    (0, mkFrame 0 (NRouter 0) (Some (NHost 1)) (ex_bad_pkt 29)) ].
+Lemma ex_bad_validate :
+  validate ex_bad [ex_bad_dgram] ex_bad_trace
+           [(0, mkRx 1 167772170 167772428 (repeat 0 10))] = true /\
+  all_ideal ex_bad 0 [ex_bad_dgram] ex_bad_trace = false /\
+  all_ideal (ex_line 65535) 0 [ex_dgram] ex_trace = true.
+Proof. vm_compute. repeat split; reflexivity. Qed.
